@@ -262,8 +262,42 @@ def r4_4(ctx):
     ctx.end()
 
 
+def r4_5(ctx):
+    """'belongs to a team assigned to the task': the allocator finds a worker's team through worker.team_id (a facility's workplace
+    through facility.workplace_id), while the candidates are drawn from team.worker_list / workplace.facility_list.  The two
+    notions of membership agree only if every method that puts a resource into such a list gives it the owner's ID -- whatever ID
+    it carried before (a worker moved from another team).  Constructors are exempt: they keep an ID given by the caller."""
+    ctx.begin("R4.5", "methods that add a worker / facility to a team / workplace set its membership ID to the new owner, unconditionally", floor=2)
+    n = 0
+    for cls, coll, idattr in ((TEAM, "worker_list", "team_id"), (WORKPLACE, "facility_list", "workplace_id")):
+        for g in ctx.repo.all_funcs():
+            if g.cls != cls or g.name in ("__init__", "read_json_data") or getattr(g, "parent", None) is not None:
+                continue
+            if not any(ef.kind == "mut" and ef.attr == coll and ef.op in ("append", "insert", "extend") and ef.cls in (cls, None) for ef in ctx.eff.of(g)):
+                continue
+            I = mk_interp(ctx)
+            for st, ex in I.run_function(g, heap={("self", "ID"): Unk("self.ID", ("prim", "str"))}):
+                if ex is not None and ex[0] == "raise":
+                    continue
+                evs = list(flatten(st.trace))
+                for a in [e for e in evs if isinstance(e, Mut) and e.attr == coll and e.op in ("append", "insert") and isinstance(e.recv, Obj) and e.recv.name == "self"]:
+                    member = a.args[-1] if a.args else None
+                    n += 1
+                    ctx.instance(construct(g, f"adds-to-{coll}"), sample={"member": repr(member)})
+                    stores = [e for e in evs if isinstance(e, Store) and e.attr == idattr and isinstance(e.recv, Obj) and isinstance(member, Obj) and e.recv == member]
+                    ok = stores and isinstance(stores[-1].value, Unk) and stores[-1].value.tag == "self.ID"
+                    if not ok:
+                        ctx.violation(construct(g, f"membership-id:{idattr}"), a.loc,
+                                      f"{g.qualname} puts {member!r} into {cls}.{coll} but does not set its {idattr} to this {cls}'s ID on every path "
+                                      f"({'it stores ' + repr(stores[-1].value) if stores else 'no store, or only under a condition'}): a resource moved here from another "
+                                      f"{'team' if cls == TEAM else 'workplace'} keeps the old ID, so the allocator judges its eligibility by the wrong {'team' if cls == TEAM else 'workplace'}")
+    ctx.require(n >= 2, "no add_worker / add_facility style method found")
+    ctx.end()
+
+
 def run(ctx):
     r4_4(ctx)
+    r4_5(ctx)
     r4_1(ctx)
     r4_2(ctx)
     r4_3(ctx)
